@@ -2,6 +2,7 @@ import Genq.Props.C01
 open Genq.TypeMap
 open Genq.Imports
 open Genq.Conv
+open Genq
 #print axioms C01_second_visit_accepted
 #print axioms C01_import_aliases_distinct
 #print axioms C01_reference_uses_declared_alias
@@ -9,3 +10,4 @@ open Genq.Conv
 #print axioms C01_template_view_complete
 #print axioms C01_tie_template_views
 #print axioms C01_generic_breaks_view
+#print axioms C01_imports_tie
